@@ -293,8 +293,10 @@ def run_property(pid, tier, seed, replay=None):
                    "validate": [(i, None) for i in range(len(profiles))]}]
     if spec.get("hunt") and not replay:
         # mass screening against the naive oracle; whatever it forwards is judged by the specification
-        phases = list(phases) + [{"hunt": pid, "runs": spec.get("hunt_runs", [(profiles[0], "both")]),
-                                  "validate": spec.get("hunt_validate", [(0, None)])}]
+        # (thorough tier: the forwarded episodes are executed by every build profile of the property)
+        hruns = spec.get("hunt_runs", [(p, "both") for p in profiles] if tier == "thorough" else [(profiles[0], "both")])
+        phases = list(phases) + [{"hunt": pid, "runs": hruns,
+                                  "validate": spec.get("hunt_validate", [(i, None) for i in range(len(hruns))])}]
     hunt_stats = []
     if replay and '"call"' in open(replay).readline():
         mm = os.path.join(outdir, "mismatch.ndjson")
